@@ -18,7 +18,7 @@ PROPS = {}
 
 PROPS["C05"] = dict(
     level="proof",
-    translators=["cbits.py"],
+    translators=["cbits.py", "pyint.py"],
     technique="Lean 4 theorems (bit helpers = arithmetic incl. C forms generated from bitstring.h over BitVec 64; "
               "single-excitation entries = Spec ladder action; injectivity; Z-matrix closed form, address = lexical "
               "rank and string table = lexical k-subsets for all (n, k); the generated Gosper step and the C "
@@ -96,8 +96,10 @@ PROPS["C08"] = dict(
 
 PROPS["C09"] = dict(
     level="proof",
+    translators=["pyint.py"],
     technique="Lean 4 theorems (accept iff possible, fixed-N / fixed-Sz sector sets exactly as promised, number "
-              "operator = occupation, T^2 = (-1)^N) + exhaustive constructor box and exact operator-value "
+              "operator = occupation, T^2 = (-1)^N; the Python sector arithmetic translated from /repo on every run = the "
+              "model) + exhaustive constructor box and exact operator-value "
               "correspondence against the Spec operators on both code paths",
     text="The sector bookkeeping model is proved to accept exactly the possible (nele, m_s, norb) and to produce exactly "
          "the promised sector sets; the whole argument box (including impossible values) is executed against the real "
